@@ -65,12 +65,16 @@ func entries() []*entry {
 
 // goroutine settling: wait until goroutines started by a handler have finished
 func settle(base int) {
-	for i := 0; runtime.NumGoroutine() > base && i < 40000; i++ {
-		if i < 100 {
+	t0 := time.Now()
+	for i := 0; runtime.NumGoroutine() > base; i++ {
+		if i < 200 {
 			runtime.Gosched()
-		} else {
-			time.Sleep(50 * time.Microsecond)
+			continue
 		}
+		if time.Since(t0) > 300*time.Millisecond {
+			return
+		}
+		time.Sleep(20 * time.Microsecond)
 	}
 }
 
@@ -281,7 +285,6 @@ func dhcpEntry() *entry {
 			}
 			conn := &capConn{}
 			peer := &net.UDPAddr{IP: net.IPv4(10, 20, 0, 99), Port: 68}
-			base := runtime.NumGoroutine()
 			var lastOffer, lastAck []byte // follow-ups a well-behaved client would send next
 			r := &fnRunner{seeds: dhcpSamples(), keep: 0}
 			r.initSys("dhcp")
@@ -293,7 +296,7 @@ func dhcpEntry() *entry {
 			}
 			r.close = func() {
 				if rf != nil {
-					settle(base)
+					time.Sleep(60 * time.Millisecond)
 					rf.close()
 				}
 			}
@@ -303,6 +306,7 @@ func dhcpEntry() *entry {
 					return outcome{class: "rejected-by-dhcpv4-library"}
 				}
 				sent := conn.n
+				base := runtime.NumGoroutine()
 				srv.VerifC09HandleDHCP(conn, peer, req)
 				settle(base) // accounting goroutines started by the handler
 				o := outcome{class: "no-reply", nontriv: true}
